@@ -43,7 +43,7 @@ def step (s : DD) (w : List String) : DD × String :=
   | ["reset", _, _] => bad
   | ["flush"] => (s, "ok")
   | ["compact"] => (s, "ok")
-  | ["reopen", _] => ({ s with d := { s.d with st := { store := s.d.st.store } } }, "ok")
+  | ["reopen", _] => ({ s with d := { s.d with st := { store := s.d.st.store }, vsnaps := [], vcounts := [] } }, "ok")
   | ["commits"] =>
     let (st', df) := commit s.d.st
     ({ d := { s.d with st := st', lastDiff := none }, stack := df :: s.stack }, showDiff df ++ " | " ++ dump st'.store)
